@@ -1246,4 +1246,173 @@ theorem iterS_closed (step : Sim → Option Sim) (stepOf phiOf rhoOf pgvOf : Ter
     refine ⟨pgv', files', ?_⟩
     simp only [iterS, h1, h2, Function.iterate_succ, Function.comp]
 
+/-! ### the parameter file -/
+
+section constants
+variable {V : Type}
+
+/-- the expression only reads the constants it names -/
+def PVal.Local : PVal V → Prop
+  | .lit _ => True
+  | .expr deps f => ∀ e1 e2 : String → Option V, (∀ k ∈ deps, e1 k = e2 k) → f e1 = f e2
+
+/-- `σ` gives every key of the file the value of its entry -/
+def Solution (data : List (String × PVal V)) (σ : String → Option V) : Prop :=
+  ∀ kp ∈ data, evalP σ kp.2 = σ kp.1 ∧ (σ kp.1).isSome = true
+
+/-- everything `env` has assigned agrees with `σ` -/
+def Below (env σ : String → Option V) : Prop := ∀ k v, env k = some v → σ k = some v
+
+/-- what is known about a pending entry -/
+def EntryOk (σ : String → Option V) (kp : String × PVal V) : Prop :=
+  kp.2.Local ∧ evalP σ kp.2 = σ kp.1 ∧ (σ kp.1).isSome = true
+
+theorem below_step (env σ : String → Option V) (kp : String × PVal V) (v : V)
+    (hb : Below env σ) (hok : EntryOk σ kp) (he : evalP env kp.2 = some v) : Below (setEnv env kp.1 v) σ := by
+  intro k' v' h
+  unfold setEnv at h
+  by_cases hk : k' = kp.1
+  · rw [if_pos hk] at h
+    have hv : v' = v := (Option.some.inj h).symm
+    subst hv; subst hk
+    obtain ⟨k, pv⟩ := kp
+    obtain ⟨hloc, hsol, _⟩ := hok
+    simp only at hloc hsol he ⊢
+    cases pv with
+    | lit v0 =>
+      simp only [evalP] at he hsol
+      rw [← hsol, he]
+    | expr deps f =>
+      simp only [evalP] at he hsol
+      by_cases hall : deps.all (fun k => (env k).isSome) = true
+      · rw [if_pos hall] at he
+        have hagree : ∀ d ∈ deps, env d = σ d := by
+          intro d hd
+          have := List.all_eq_true.1 hall d hd
+          obtain ⟨x, hx⟩ := Option.isSome_iff_exists.1 this
+          rw [hx, hb d x hx]
+        have hall' : deps.all (fun k => (σ k).isSome) = true := by
+          rw [List.all_eq_true]; intro d hd
+          rw [← hagree d hd]; exact List.all_eq_true.1 hall d hd
+        rw [if_pos hall'] at hsol
+        rw [← hsol, ← Option.some.inj he, hloc env σ hagree]
+      · rw [if_neg hall] at he; exact absurd he (by simp)
+  · rw [if_neg hk] at h; exact hb k' v' h
+
+theorem setEnv_isSome (env : String → Option V) (k : String) (v : V) (k' : String) (h : (env k').isSome = true) :
+    (setEnv env k v k').isSome = true := by
+  unfold setEnv; by_cases hk : k' = k
+  · simp [hk]
+  · simp [hk, h]
+
+/-- one sweep keeps `env` below every solution; what it defers are entries of the file; and every entry it was given is
+    afterwards either assigned or deferred -/
+theorem sweep_inv (σ : String → Option V) : ∀ (items : List (String × PVal V)) (env : String → Option V)
+    (um : List (String × PVal V)), (∀ kp ∈ items, EntryOk σ kp) → (∀ kp ∈ um, EntryOk σ kp) → Below env σ →
+    Below (sweep items env um).1 σ ∧ (∀ kp ∈ (sweep items env um).2, EntryOk σ kp)
+    ∧ (∀ k, ((env k).isSome = true ∨ k ∈ um.map (·.1) ∨ k ∈ items.map (·.1)) →
+          (((sweep items env um).1 k).isSome = true ∨ k ∈ (sweep items env um).2.map (·.1)))
+  | [], env, um, _, hum, hb => ⟨hb, hum, fun k h => by
+      rcases h with h | h | h
+      · exact Or.inl h
+      · exact Or.inr h
+      · simp at h⟩
+  | (k, pv) :: rest, env, um, hit, hum, hb => by
+    have hok : EntryOk σ (k, pv) := hit (k, pv) (by simp)
+    have hrest : ∀ kp ∈ rest, EntryOk σ kp := fun kp h => hit kp (List.mem_cons_of_mem _ h)
+    cases he : evalP env pv with
+    | some v =>
+      have hb' := below_step env σ (k, pv) v hb hok he
+      obtain ⟨r1, r2, r3⟩ := sweep_inv σ rest (setEnv env k v) um hrest hum hb'
+      simp only [sweep, he]
+      refine ⟨r1, r2, fun k' h => r3 k' ?_⟩
+      rcases h with h | h | h
+      · exact Or.inl (setEnv_isSome env k v k' h)
+      · exact Or.inr (Or.inl h)
+      · simp only [List.map_cons, List.mem_cons] at h
+        rcases h with h | h
+        · left; unfold setEnv; simp [h]
+        · exact Or.inr (Or.inr h)
+    | none =>
+      have hum' : ∀ kp ∈ um ++ [(k, pv)], EntryOk σ kp := by
+        intro kp h
+        rcases List.mem_append.1 h with h | h
+        · exact hum kp h
+        · simp only [List.mem_singleton] at h; rw [h]; exact hok
+      obtain ⟨r1, r2, r3⟩ := sweep_inv σ rest env (um ++ [(k, pv)]) hrest hum' hb
+      simp only [sweep, he]
+      refine ⟨r1, r2, fun k' h => r3 k' ?_⟩
+      rcases h with h | h | h
+      · exact Or.inl h
+      · exact Or.inr (Or.inl (by simp [h]))
+      · simp only [List.map_cons, List.mem_cons] at h
+        rcases h with h | h
+        · exact Or.inr (Or.inl (by simp [h]))
+        · exact Or.inr (Or.inr h)
+
+/-- a successful run of `get_constants` returns, on every key it was given, the value of the solution -/
+theorem getConstants_inv (σ : String → Option V) : ∀ (fuel : Nat) (data : List (String × PVal V))
+    (env res : String → Option V), (∀ kp ∈ data, EntryOk σ kp) → Below env σ →
+    getConstants fuel data env = some res →
+    Below res σ ∧ ∀ k, ((env k).isSome = true ∨ k ∈ data.map (·.1)) → (res k).isSome = true
+  | fuel, [], env, res, _, hb, h => by
+    cases fuel <;> (simp only [getConstants] at h; cases h; exact ⟨hb, fun k hk => by simpa using hk⟩)
+  | 0, _ :: _, _, _, _, _, h => by simp [getConstants] at h
+  | fuel + 1, d :: ds, env, res, hd, hb, h => by
+    simp only [getConstants] at h
+    have hrev : ∀ kp ∈ (d :: ds).reverse, EntryOk σ kp := fun kp hk => hd kp (List.mem_reverse.1 hk)
+    obtain ⟨r1, r2, r3⟩ := sweep_inv σ (d :: ds).reverse env [] hrev (by simp) hb
+    by_cases hlt : (sweep (d :: ds).reverse env []).2.length < (d :: ds).length
+    · rw [if_pos hlt] at h
+      obtain ⟨g1, g2⟩ := getConstants_inv σ fuel _ _ res r2 r1 h
+      refine ⟨g1, fun k hk => g2 k ?_⟩
+      apply r3 k
+      rcases hk with hk | hk
+      · exact Or.inl hk
+      · right; right
+        rw [List.map_reverse, List.mem_reverse]; exact hk
+    · rw [if_neg hlt] at h; exact absurd h (by simp)
+
+/-- a sweep leaves alone the keys it is not given -/
+theorem sweep_other (k : String) : ∀ (items : List (String × PVal V)) (env : String → Option V)
+    (um : List (String × PVal V)), k ∉ items.map (·.1) → (sweep items env um).1 k = env k
+  | [], _, _, _ => rfl
+  | (k0, pv) :: rest, env, um, h => by
+    simp only [List.map_cons, List.mem_cons, not_or] at h
+    cases he : evalP env pv with
+    | some v =>
+      simp only [sweep, he]
+      rw [sweep_other k rest _ um h.2]
+      unfold setEnv; simp [h.1]
+    | none =>
+      simp only [sweep, he]
+      exact sweep_other k rest env _ h.2
+
+/-- a file of literals only (what `Constants.__str__` prints) is read in one sweep: nothing is deferred and every key gets
+    its literal -/
+theorem sweep_lits : ∀ (items : List (String × PVal V)) (env : String → Option V) (um : List (String × PVal V)),
+    (∀ kp ∈ items, ∃ v, kp.2 = PVal.lit v) → (items.map (·.1)).Nodup →
+    (sweep items env um).2 = um ∧ ∀ k v, (k, PVal.lit v) ∈ items → (sweep items env um).1 k = some v
+  | [], _, _, _, _ => ⟨rfl, fun _ _ h => by simp at h⟩
+  | (k0, pv) :: rest, env, um, hl, hnd => by
+    obtain ⟨v0, hv0⟩ := hl (k0, pv) (by simp)
+    simp only at hv0; subst hv0
+    simp only [List.map_cons, List.nodup_cons] at hnd
+    obtain ⟨r1, r2⟩ := sweep_lits rest (setEnv env k0 v0) um (fun kp h => hl kp (List.mem_cons_of_mem _ h)) hnd.2
+    have e : sweep ((k0, PVal.lit v0) :: rest) env um = sweep rest (setEnv env k0 v0) um := by simp [sweep, evalP]
+    rw [e]
+    refine ⟨r1, fun k v h => ?_⟩
+    rcases List.mem_cons.1 h with h | h
+    · have hk : k = k0 := congrArg Prod.fst h
+      have hv : v = v0 := by
+        have := congrArg Prod.snd h
+        simp only at this
+        exact PVal.lit.inj this
+      subst hk; subst hv
+      rw [sweep_other k rest _ um hnd.1]
+      unfold setEnv; simp
+    · exact r2 k v h
+
+end constants
+
 end PygyroVerif.Ckpt
